@@ -128,6 +128,13 @@ func entryText(r *vlib.R, l []string) string {
 }
 
 func (u *universe) entry(r *vlib.R, kind string) (string, string) {
+	if p := presentEntry(r); p != "" && r.Chance(1, 10) {
+		// the SAME name in the other form: "*.x" while "x" is listed and vice versa
+		if strings.HasPrefix(p, "*.") {
+			return p[2:], "toggled"
+		}
+		return "*." + p, "toggled"
+	}
 	l := vlib.Pick(r, u.names)
 	tag := ""
 	switch {
@@ -648,6 +655,9 @@ func apiExtra() int {
 	return 0
 }
 
+// remoteBudget bounds the remote-list downloads (each starts a loopback server).
+var remoteBudget int
+
 // apiBudget bounds the cases that talk through the HTTP API (each starts a listener).
 var apiBudget int
 
@@ -699,7 +709,43 @@ func mainText() string {
 	return enc(string(data))
 }
 
+// remoteListText: a third-party list as they come: plain names, hosts-file lines,
+// comments, wildcard lines, CRLF, an entry already listed.
+func remoteListText(r *vlib.R, u *universe) string {
+	var sb strings.Builder
+	for i := 0; i < 1+r.Intn(5); i++ {
+		e, tag := u.entry(r, vlib.Pick(r, []string{"plain", "plain", "wild"}))
+		if tag == "malformed" {
+			continue
+		}
+		switch r.Intn(6) {
+		case 0:
+			sb.WriteString("0.0.0.0 " + e + "\n")
+		case 1:
+			sb.WriteString("127.0.0.1 " + e + " alias." + e + " # ad server\n")
+		case 2:
+			sb.WriteString("# " + e + "\n\n")
+		case 3:
+			sb.WriteString(e + "\r\n")
+		default:
+			sb.WriteString(e + "\n")
+		}
+	}
+	if p := presentEntry(r); p != "" && r.Chance(1, 3) {
+		sb.WriteString(p + "\n")
+	}
+	if sb.Len() == 0 {
+		return "-"
+	}
+	return enc(sb.String())
+}
+
 func emitDirLoad(r *vlib.R, u *universe, emit func(string)) int {
+	if remoteBudget > 0 && r.Chance(1, 4) {
+		remoteBudget--
+		emit(fmt.Sprintf("bl remote %s %d %s", mainText(), vlib.Pick(r, []int{200, 200, 200, 404, 500}), remoteListText(r, u)))
+		return 1
+	}
 	if r.Chance(1, 3) {
 		// the same moment, but the process is killed and restarted instead
 		emit("bl restart " + mainText() + " " + stagingText(r, u))
@@ -775,10 +821,20 @@ func gen(r *vlib.R, n int, tier string, emit func(string)) {
 	emit("bl restart " + mainText() + " _")
 	emit("bl set " + enc("after.example.net"))
 	emit("bl reload")
+	emit("bl remote " + mainText() + " 200 " + enc("# remote list\n0.0.0.0 ads.remote.example\n*.trk.remote.example\nexample.com\n"))
+	emit("bl remote " + mainText() + " 404 " + enc("gone.remote.example\n"))
+	emit("bl set " + enc("*.same.example"))
+	emit("bl set " + enc("same.example"))
+	emit("bl file")
+	emit("bl remove " + enc("*.same.example"))
+	emit("bl file")
+	emit("bl fresh " + enc("first.example.com") + " " + enc("second.example.com"))
 	crashes, concs := 14, 12
 	raceBudget = 8
 	apiBudget = 40
+	remoteBudget = 30
 	if tier == "thorough" {
+		remoteBudget = 400
 		crashes, concs = 150, 300
 		raceBudget = 100
 		apiBudget = 600
